@@ -2,7 +2,7 @@
    steady-state packets do not grow anything.  (What the allocator is actually asked is sampled, not proved.) *)
 From Coq Require Import List NArith Lia ZArith ZifyN ZifyNat ZifyBool Bool.
 From TS Require Import Base.Res Base.ListX Base.Bits Model.Timestamp Model.Packet Model.Pes Model.PesFilter Model.Crc Model.Psi Model.Demux
-  Spec.PacketSpec Proofs.PacketProofs Proofs.PesFilterProofs Proofs.SectionProofs Proofs.TableProofs Proofs.TotalityProofs.
+  Spec.PacketSpec Proofs.PacketProofs Proofs.PesFilterProofs Proofs.SectionProofs Proofs.TableProofs Proofs.DeepTotality Proofs.TotalityProofs.
 Import ListNotations.
 Open Scope N_scope.
 
